@@ -32,9 +32,13 @@ bool g_backend = false;        // child only: run through tbox::main::Start()/St
 // node <parent> <optional> <namemode> <init> <start>  (as in sub `tree`); node 0 is Main()'s own `apps` module
 // (a plain unnamed Module without hooks) and is implicit.  namemode 3 = the field is removed again from the default
 // config with "-s <path>=null" on the command line.
+// Two more (optional) arguments per node: <stopdur> <cleanupdur> = how long onStop / onCleanup take: code 0 = returns at once,
+// 1..5 = that many ms, 6..19 = 20..150 ms (the sum over the tree is scaled down to at most 800 ms per case).
 // backend : drive the back-end runner instead: tbox::main::Start(argc, argv) and, if it returned true, tbox::main::Stop().
 // exitloop : (front-end runner only) the application leaves the loop itself with Loop::exitLoop() instead of being told to
 //            stop by SIGTERM, so Main() goes straight to apps.cleanup() on a tree that is still running.
+const long kMaxSleepMs = 800;
+int dur_ms(int64_t code) { return code <= 5 ? (int)code : 20 + (int)(code - 6) * 10; }
 void decode_spec(const Scenario &s, TreeSpec &t, bool &backend, bool *exitloop = nullptr) {
   std::vector<int> depth(1, 0);
   t.nodes.push_back(NodeSpec());
@@ -54,9 +58,13 @@ void decode_spec(const Scenario &s, TreeSpec &t, bool &backend, bool *exitloop =
     n.namemode = (int)op.in(2, 0, 3);
     n.init = (int)op.in(3, 0, 2);
     n.start = (int)op.in(4, 0, 2);
+    n.stop_ms = dur_ms(op.in(5, 0, 19));
+    n.cleanup_ms = dur_ms(op.in(6, 0, 19));
     depth.push_back(depth[target] + 1);
     t.nodes.push_back(n);
   }
+  long sum = 0; for (auto &n : t.nodes) sum += n.stop_ms + n.cleanup_ms;
+  if (sum > kMaxSleepMs) for (auto &n : t.nodes) { n.stop_ms = (int)((long)n.stop_ms * kMaxSleepMs / sum); n.cleanup_ms = (int)((long)n.cleanup_ms * kMaxSleepMs / sum); }
   normalise(t);
 }
 
@@ -114,12 +122,10 @@ long cpu_ticks(pid_t pid) {
   int r = 0;
   if (!backend) r = tbox::main::Main((int)args.size(), argv.data());
   else if (tbox::main::Start((int)args.size(), argv.data())) {     // true: apps initialised and started, loop thread running
-    unsigned char m[2] = {0, kMarkRunLoop};
-    ssize_t k = ::write(wfd, m, 2); (void)k;
+    w.mark(kMarkRunLoop);
     tbox::main::Stop();
   }
-  unsigned char b[2] = {(unsigned char)(r & 0xff), kMarkReturned};
-  ssize_t n = ::write(wfd, b, 2); (void)n;
+  w.mark(kMarkReturned, r & 0xff);
   _exit(g_register_failed ? 9 : 0);
 }
 
@@ -211,8 +217,22 @@ std::string run_main(const Scenario &s, CaseInfo &info) {
   std::vector<Ev> log;
   bool ran_loop = false, returned = false;
   int seg = 0;
-  for (size_t i = 0; i + 1 < bytes.size(); i += 2) {
-    int node = bytes[i], kind = bytes[i + 1];
+  // H (round 6): hooks of one tree never overlap in time (the runners execute them strictly one after the other, if on
+  // different threads: Stop() joins the loop thread, which ran the stop hooks, before the caller's thread cleans up)
+  std::string overlap;
+  int open_node = -1, open_hook = 0, open_thread = 0; bool two_threads = false;
+  static const char *hook_names[] = {"onInit", "onStart", "onStop", "onCleanup"};
+  for (size_t i = 0; i + 2 < bytes.size(); i += 3) {
+    int node = bytes[i], kind = bytes[i + 1], thread = bytes[i + 2];
+    if (kind >= kHookEnter && kind < kHookEnter + 4) {
+      if (thread != 0) two_threads = true;
+      if (open_node >= 0 && overlap.empty())
+        overlap = std::string(hook_names[kind - kHookEnter]) + " of node " + std::to_string(node) + " started on thread #" + std::to_string(thread) + " while " + hook_names[open_hook] +
+                  " of node " + std::to_string(open_node) + " was still executing on thread #" + std::to_string(open_thread) + ": the hooks of one tree must run strictly one after the other";
+      open_node = node; open_hook = kind - kHookEnter; open_thread = thread;
+      continue;
+    }
+    if (kind == kHookLeave) { if (open_node == node && open_thread == thread) open_node = -1; continue; }
     if (kind == kMarkRunLoop) { ran_loop = true; seg = 2; continue; }
     if (kind == kMarkReturned) { returned = true; continue; }
     if (seg == 0 && (kind == START_OK || kind == START_FAIL)) seg = 1;
@@ -232,7 +252,11 @@ std::string run_main(const Scenario &s, CaseInfo &info) {
     }
   }
   apply_flags(o.flags, t, info);
+  long slow = 0; for (auto &n : t.nodes) slow += n.stop_ms + n.cleanup_ms;
   info.cls_if(backend, "backend_runner_Start_Stop");
+  info.cls_if(slow > 0, "hooks_that_take_time");
+  info.cls_if(backend && ran_loop && slow >= 20, "backend:Stop()_with_slow_stop_or_cleanup_hooks");
+  info.cls_if(two_threads, "hooks_ran_on_two_threads");
   info.cls_if(exitloop && ran_loop, "Main:app_leaves_loop_itself_cleanup_of_running_tree");
   info.cls_if(init_failed, "Main:apps_init_failed");
   info.cls_if(!init_failed && start_failed, "Main:apps_start_failed");
@@ -245,6 +269,7 @@ std::string run_main(const Scenario &s, CaseInfo &info) {
   if (WIFEXITED(status) && WEXITSTATUS(status) == 9) return "HARNESS: RegisterApps could not build the tree";
   if (WIFEXITED(status) && WEXITSTATUS(status) != 0) return "the process running Main() exited with status " + std::to_string(WEXITSTATUS(status)) + (err.empty() ? std::string() : " (" + err + ")");
   if (!returned) return "Main() did not return normally";
+  if (!overlap.empty()) return overlap + (err.empty() ? std::string() : "  [hook log: " + err + "]");
   if (!err.empty()) return err;
   // Not part of the property (recorded only): did the runner enter its loop exactly when both phases succeeded?
   if ((!init_failed && !start_failed) != ran_loop) stats().counters["loop_entered_unexpectedly_or_not"]++;
@@ -254,7 +279,7 @@ std::string run_main(const Scenario &s, CaseInfo &info) {
 SubDef def_main = [] {
   SubDef d; d.name = "main_runner";
   d.op_names = {"node", "backend", "exitloop"};
-  d.op_arity = {5, 0, 0};
+  d.op_arity = {7, 0, 0};
   d.nt_rule = "Main() run in which apps.initialize() or apps.start() fails (required module fails / config field removed), or an optional subtree fails half-way";
   d.run = run_main;
 #ifndef VERIF_ENGINE_FUZZ
@@ -264,7 +289,8 @@ SubDef def_main = [] {
     auto parent = weightedOneOf<int64_t>({{3, range(0, 11)}, {2, range(100, 103)}});
     auto opt = weightedOneOf<int64_t>({{3, just<int64_t>(0)}, {2, just<int64_t>(1)}});
     auto nmode = weightedOneOf<int64_t>({{5, just<int64_t>(0)}, {8, just<int64_t>(1)}, {3, just<int64_t>(2)}, {1, just<int64_t>(3)}});
-    auto nodeop = [&](int ok, int fail) { return mkop(NODE, {parent, opt, nmode, outc(ok, fail), outc(ok, fail)}); };
+    auto quick_dur = weightedOneOf<int64_t>({{6, just<int64_t>(0)}, {1, range(1, 3)}});
+    auto nodeop = [&](int ok, int fail) { return mkop(NODE, {parent, opt, nmode, outc(ok, fail), outc(ok, fail), quick_dur, quick_dur}); };
     auto nodes = weightedOneOf<std::vector<Op>>({{3, opsOf(nodeop(92, 8))}, {2, opsOf(nodeop(80, 20))}});
     auto mode = weightedOneOf<std::vector<Op>>({{2, just(std::vector<Op>())}, {1, fixedOps({mkop(BACKEND, {})})}, {1, fixedOps({mkop(EXITLOOP, {})})}});
     return rc::gen::apply([](std::vector<Op> v, std::vector<Op> m) { Scenario s; s.ops = std::move(v); for (auto &o : m) s.ops.push_back(o); return s; }, nodes, mode);
@@ -274,11 +300,48 @@ SubDef def_main = [] {
 }();
 VERIF_REGISTER(&def_main);
 
+// Sibling sub: always the back-end runner Start()/Stop(), hooks with generated durations (0, a few ms, 20-150 ms).
+std::string run_backend(const Scenario &s, CaseInfo &info) {
+  Scenario s2 = s;
+  bool has = false; for (auto &o : s2.ops) if (o.code == BACKEND) has = true;
+  if (!has) { Op o; o.code = BACKEND; s2.ops.push_back(o); }
+  return run_main(s2, info);
+}
+SubDef def_backend = [] {
+  SubDef d; d.name = "backend_runner";
+  d.op_names = {"node", "backend", "exitloop"};
+  d.op_arity = {7, 0, 0};
+  d.nt_rule = "Start() succeeded and Stop() ran with at least 20 ms of onStop/onCleanup work in the tree (so that a concurrent walk of the tree would overlap), or Start() failed in apps.initialize()/apps.start()";
+  d.run = [](const Scenario &s, CaseInfo &info) {
+    std::string e = run_backend(s, info);
+    bool slow_stop = false; for (auto c : info.classes) if (!strcmp(c, "backend:Stop()_with_slow_stop_or_cleanup_hooks")) slow_stop = true;
+    if (slow_stop) info.nontrivial = true;
+    return e;
+  };
+#ifndef VERIF_ENGINE_FUZZ
+  d.gen = [] {
+    using rc::gen::weightedOneOf; using rc::gen::just;
+    auto outc = weightedOneOf<int64_t>({{94, just<int64_t>(0)}, {6, just<int64_t>(1)}});
+    auto parent = weightedOneOf<int64_t>({{3, range(0, 11)}, {2, range(100, 103)}});
+    auto opt = weightedOneOf<int64_t>({{3, just<int64_t>(0)}, {2, just<int64_t>(1)}});
+    auto nmode = weightedOneOf<int64_t>({{5, just<int64_t>(0)}, {8, just<int64_t>(1)}, {3, just<int64_t>(2)}});
+    auto dur = weightedOneOf<int64_t>({{4, just<int64_t>(0)}, {3, range(1, 5)}, {3, range(6, 19)}});
+    auto nodeop = mkop(NODE, {parent, opt, nmode, outc, outc, dur, dur});
+    // at least one module, so that there is a stop hook to be slow
+    auto first = mkop(NODE, {just<int64_t>(0), just<int64_t>(0), nmode, just<int64_t>(0), just<int64_t>(0), dur, dur});
+    return rc::gen::apply([](Op f, std::vector<Op> v) { Scenario s; s.ops.push_back(std::move(f)); for (auto &o : v) s.ops.push_back(std::move(o)); return s; },
+                          first, rc::gen::scale(0.6, opsOf(nodeop)));
+  };
+#endif
+  return d;
+}();
+VERIF_REGISTER(&def_backend);
+
 // internal: what the spawned child executes ("--sub main_child --replay /dev/fd/101", events to fd 100); never returns
 SubDef def_child = [] {
   SubDef d; d.name = "main_child";
   d.op_names = {"node", "backend", "exitloop"};
-  d.op_arity = {5, 0, 0};
+  d.op_arity = {7, 0, 0};
   d.nt_rule = "internal";
   d.run = [](const Scenario &s, CaseInfo &) -> std::string {
     TreeSpec t; bool backend = false, exitloop = false;
@@ -307,8 +370,7 @@ void RegisterApps(Module &apps, Context &ctx) {
   tbox::event::Loop *loop = ctx.loop();
   loop->runInLoop([loop] {
     if (!loop->isRunning()) return;
-    unsigned char b[2] = {0, kMarkRunLoop};
-    ssize_t n = ::write(g_world->out_fd, b, 2); (void)n;
+    g_world->mark(kMarkRunLoop);
     if (g_exitloop) loop->exitLoop(); else raise(SIGTERM);
   }, "c11::raise_sigterm");
 }
